@@ -17,7 +17,7 @@ import struct
 
 from .. import driver, reader, tablekit
 from ..report import Report
-from ..util import scratch_dir
+from ..util import enc, scratch_dir
 
 ASSUMPTIONS = [
     "a timezone-aware datetime stored in the (naive, UTC) timestamp type keeps its instant: that is the type's representation (DESIGN §7)",
@@ -323,6 +323,17 @@ def _record_validation(ctx, rep, base, model_rows):
         shutil.rmtree(p, ignore_errors=True)
 
 
+def _arrow_name(ty):
+    """the spelling `_iceberg_type_to_arrow` uses in the source for this Arrow type"""
+    import pyarrow as pa
+    for spelling, t in (("pa.int64()", pa.int64()), ("pa.int32()", pa.int32()), ("pa.string()", pa.string()), ("pa.float64()", pa.float64()),
+                        ("pa.float32()", pa.float32()), ("pa.bool_()", pa.bool_()), ("pa.binary()", pa.binary()), ("pa.date32()", pa.date32()),
+                        ("pa.time64('us')", pa.time64("us")), ("pa.timestamp('us')", pa.timestamp("us"))):
+        if ty == t:
+            return spelling
+    return "other:" + str(ty)
+
+
 def _prebuilt_files(ctx, rep, base, model_rows):
     """the file-level append API: a parquet file built outside the library, of every footer-schema variant"""
     import pyarrow as pa
@@ -372,6 +383,8 @@ def _prebuilt_files(ctx, rep, base, model_rows):
                 except Exception:       # noqa: BLE001
                     accepted = False
                 rep.distribution[f"prebuilt:{name}:{'accept' if accepted else 'reject'}"] += 1
+                ft = ",".join(f"{f.name}:{enc(_arrow_name(f.type))}:{1 if f.nullable else 0}" for f in sch)
+                model_rows.append((f"ap.file {_enc_fields(fields)} {ft}", "accept" if accepted else "reject", case))
                 if not accepted:
                     after = _state(p)
                     if (after[0], after[1]) != (before[0], before[1]) or not set(before[2]) <= set(after[2]):
